@@ -1,5 +1,6 @@
 import OtelVerif.Model.Hex
 import OtelVerif.Model.TraceState
+import OtelVerif.Gen.TraceHeaders
 /-! `trace/propagation/http_trace_context.h` -/
 namespace Otel
 namespace TraceContext
@@ -46,6 +47,20 @@ def extractFromHeaders (tp ts : Bytes) : Option SpanCtx :=
 def extract (tp ts : Bytes) : Option SpanCtx :=
   let t := trim tp
   if t.isEmpty then none else extractFromHeaders t ts
+
+/-- `Fields(callback)`: the header names are offered in order until the callback answers false;
+    `stopAt = n > 0`: the callback answers false on its n-th call (0 = never).  (names seen, return value) -/
+def fields (stopAt : Nat) : List Bytes × Bool :=
+  if stopAt = 0 ∨ stopAt > Gen.tcFieldNames.length then (Gen.tcFieldNames, true)
+  else (Gen.tcFieldNames.take stopAt, false)
+
+/-- `TraceIdFromHex` / `SpanIdFromHex` / `TraceFlagsFromHex`: `HexToBinary` into a zeroed buffer of `n` bytes,
+    its return value ignored (too long: the buffer stays zero) -/
+def idFromHex (n : Nat) (hex : Bytes) : Bytes := (hexToBinary hex n).2
+
+/-- a span context whose trace state is built member by member with `Set`, last member first -/
+def stateBySet (members : TraceState.Entries) : TraceState.Entries :=
+  members.reverse.foldl (fun st e => TraceState.set st e.1 e.2) []
 
 end TraceContext
 end Otel
